@@ -6,6 +6,8 @@ P="$(realpath "$1")"; PROP="$2"; TIER="${3:-quick}"
 if [ -n "$(git -C /repo status --porcelain --untracked-files=no)" ]; then echo "/repo is dirty" >&2; exit 2; fi
 git -C /repo apply "$P" || { echo "apply failed" >&2; exit 2; }
 trap 'git -C /repo checkout -q -- .; /verif/scripts/build.sh asan >/dev/null 2>&1' EXIT
+# evidence of runs on a changed tree never lands in /verif/evidence
+export VERIF_EVIDENCE_DIR=/verif/.build/run/mutant-evidence
 OUT=$(/verif/scripts/check.sh "$PROP" "$TIER" 2>&1); RC=$?
 echo "$OUT" | grep -E "^VIOLATION|^KNOWN|SUMMARY|HARNESS" | cut -c1-400 | head -12
 if [ $RC -eq 1 ]; then echo "DETECTED rc=1"; elif [ $RC -eq 0 ]; then echo "MISSED rc=0"; else echo "HARNESS-ERROR rc=$RC"; fi
